@@ -146,6 +146,14 @@ fn compile_native_asset_for_mint(
 fn compile_ada_value(ir: &tir::AssetExpr) -> Result<primitives::Value, Error> {
     let amount = coercion::expr_into_number(&ir.amount)?;
 
+    // an amount above the field's range would be cut down to its low 64 bits
+    if amount > u64::MAX as i128 {
+        return Err(Error::CoerceError(
+            amount.to_string(),
+            "lovelace amount".to_string(),
+        ));
+    }
+
     Ok(value!(amount as u64))
 }
 
